@@ -833,3 +833,28 @@ package argmapper
 //@   loop 9 invariant [convs using inv9.convs, inv8.convs] len(convs) >= len(b.convs) && forall(i, int, imp(0 <= i && i < len(b.convs), convs[i] == b.convs[i])) && fresh(convs)
 //@   loop 9 invariant [verts using inv9.verts, inv8.verts, graph.vertices-kept] forall(i, int, imp(0 <= i && i < len(rslice8), has(g.hash, hc(rslice8[i])) && g.hash[hc(rslice8[i])] == rslice8[i]))
 //@   before "value := newValueFromVertex(vertex)" assert [vertex-is-a-representative using inv8.verts, inv8.gOK] repOK(vertex)
+
+// ---------------------------------------------------------------- call.go: callGraph (C01 C03 C13)
+// The pruning callback: records every vertex it is shown, descends everywhere but into the target.
+//@ axiom cg-callback: forall(cb, graph.DFSFunc, trig(fncode(cb), imp(fncode(cb) == litcode("argmapper.(*Func).callGraph$1"), cbset(cb) == captured(cb, "argmapper.(*Func).callGraph$1", "visited") && neverFails(cb))))
+//@ axiom cg-callback-descends: forall(cb, graph.DFSFunc, v, any, trig(descends(cb, v), imp(fncode(cb) == litcode("argmapper.(*Func).callGraph$1"), descends(cb, v) == (v != captured(cb, "argmapper.(*Func).callGraph$1", "vertexF")))))
+//@ func (*Func).callGraph$1
+//@   requires [next-is-dfs-closure] next != nil && fncode(next) == litcode("graph.(*Graph).dfs$1")
+//@   requires [once] !in(captured(next, "graph.(*Graph).dfs$1", "w"), dvisited)
+//@   requires captured(next, "graph.(*Graph).dfs$1", "g") != nil && wf0(captured(next, "graph.(*Graph).dfs$1", "g")) && captured(next, "graph.(*Graph).dfs$1", "visited") != nil
+//@   requires dom(captured(next, "graph.(*Graph).dfs$1", "visited")) == dvisited && captured(next, "graph.(*Graph).dfs$1", "cb") == self
+//@   requires [shown-a-vertex] v == captured(next, "graph.(*Graph).dfs$1", "g").hash[captured(next, "graph.(*Graph).dfs$1", "w")] && has(captured(next, "graph.(*Graph).dfs$1", "g").hash, captured(next, "graph.(*Graph).dfs$1", "w"))
+//@   requires [own-set-apart] captured(next, "graph.(*Graph).dfs$1", "visited") != cbset(self) && (cbset(self) == nil || allocated(cbset(self)))
+//@   requires [creation-site-fact] visited != nil
+//@   ensures  in(captured(next, "graph.(*Graph).dfs$1", "w"), reported) && forall(k, any, imp(old(in(k, reported)), in(k, reported))) && forall(k, any, imp(old(in(k, dvisited)), in(k, dvisited)))
+//@   ensures  imp(result == nil && descends(self, v), dfsPostCb(captured(next, "graph.(*Graph).dfs$1", "g"), self, captured(next, "graph.(*Graph).dfs$1", "w")))
+//@   ensures  imp(!descends(self, v), dvisited == old(dvisited) && reported == add(old(reported), captured(next, "graph.(*Graph).dfs$1", "w")))
+//@   ensures  dom(captured(next, "graph.(*Graph).dfs$1", "visited")) == dvisited
+//@   ensures  graphKept()
+//@   ensures  [sets-only-grow] forall(m, VisitM, k, any, imp(old(allocated(m)) && old(has(m, k)), has(m, k)))
+//@   ensures  [reported-recorded] imp(cbset(self) != nil, forall(k, any, imp(in(k, reported) && !old(in(k, reported)), has(cbset(self), k))))
+//@   ensures  [only-reported-recorded] imp(cbset(self) != nil, forall(k, any, imp(has(cbset(self), k) && !old(has(cbset(self), k)), in(k, reported))))
+//@   ensures  [never-fails] imp(neverFails(self), result == nil)
+//@   assigns  VisitM, reported, dvisited
+//@   dispatch next "graph.(*Graph).dfs$1"
+//@   before "visited[graph.VertexID(v)] = struct{}{}" set reported = add(reported, captured(next, "graph.(*Graph).dfs$1", "w"))
